@@ -24,6 +24,10 @@ type PropertySpec struct {
 	NotCovered   []string `json:"not_covered"`
 	Bounded      []BoundedSpec `json:"bounded"`
 	MinObligations int    `json:"min_obligations"`
+	// CalleesProvedUnder: other properties' checks that already prove the contracts of callees
+	// (their specs list those functions): such callees are not verified again here; their
+	// contracts are used as stated and reported as "proved by check Cxx"
+	CalleesProvedUnder []string `json:"callees_proved_under"`
 }
 
 type BoundedSpec struct {
@@ -184,6 +188,22 @@ func cmdVerify(args []string) int {
 		}
 		todo[f] = true
 	}
+	// callee contracts proved by another property's check
+	provedElsewhere := map[string]string{}
+	elsewhere := map[string]string{}
+	for _, other := range spec.CalleesProvedUnder {
+		var os2 PropertySpec
+		if b, err := os.ReadFile(filepath.Join(*verif, "specs", other+".json")); err == nil && json.Unmarshal(b, &os2) == nil {
+			for _, f := range os2.Functions {
+				provedElsewhere[f] = other
+			}
+			for full, c := range cs.Funcs {
+				if contractHasProperty(c, other) {
+					provedElsewhere[full] = other
+				}
+			}
+		}
+	}
 	done := map[string]*FuncResult{}
 	var mu sync.Mutex
 	for {
@@ -200,7 +220,9 @@ func cmdVerify(args []string) int {
 		var wg sync.WaitGroup
 		// VC generation is sequential: go/ssa and go/types build some structures lazily and a
 		// crash here would be a false alarm; only the solver runs are parallel
-		sem := make(chan struct{}, 1)
+		// (generation itself is serialised by genMu; the candidate-invariant rounds of
+		// auto-invariants run their solver queries outside it)
+		sem := make(chan struct{}, 12)
 		for _, f := range batch {
 			f := f
 			c := cs.Funcs[f]
@@ -223,6 +245,10 @@ func cmdVerify(args []string) int {
 		for _, f := range batch {
 			for _, called := range done[f].Called {
 				if cs.Funcs[called] != nil {
+					if by := provedElsewhere[called]; by != "" && !contractHasProperty(cs.Funcs[called], *prop) {
+						elsewhere[called] = by
+						continue
+					}
 					todo[called] = true
 				}
 			}
@@ -242,6 +268,9 @@ func cmdVerify(args []string) int {
 	sort.Strings(funcs)
 	trusted := map[string]bool{}
 	notes := map[string]bool{}
+	for f, by := range elsewhere {
+		trusted["contract of "+f+" used as stated: proved by check "+by+" (not re-verified here)"] = true
+	}
 	for _, f := range funcs {
 		r := done[f]
 		if r.Err != "" {
